@@ -7,6 +7,8 @@ if [ -n "$(git status --porcelain --untracked-files=no)" ]; then echo "/repo not
 git apply --3way /verif/seeded/$ID/patch.diff 2>/dev/null || git apply /verif/seeded/$ID/patch.diff || { echo "patch does not apply"; git checkout -- .; exit 4; }
 git reset -q
 cd /verif
+# evidence of runs on a mutated tree goes to a scratch directory, not to /verif/evidence
+export VERIF_EVIDENCE_DIR=/verif/.cache/evidence-seeded
 VERIF_NOLOCK=${VERIF_NOLOCK:-} ./check $PROP "$@" > /verif/seeded/$ID/check_$PROP.out 2>&1; RC=$?
 git -C /repo checkout -- .
 echo "seed $ID on $PROP: exit $RC"; grep -E "^VIOLATION|^INCONCLUSIVE" /verif/seeded/$ID/check_$PROP.out | head -5
